@@ -265,13 +265,13 @@ def eigh_contract(A, *a, **k):
   for i in range(d):
     for j in range(i, d):
       cs.append(sum(V[i][r] * V[j][r] for r in range(d)) == (1 if i == j else 0))
+  e.trace.append(('a', z3.And(*cs)))
   if d == 2:
     # closed-form spectrum of a symmetric 2x2 matrix (implied by the contract; stated to help the solver)
     a, b, c = term_of(A[0, 0], True), term_of(A[1, 0], True), term_of(A[1, 1], True)
     rs = sym_sqrt(Sym(((a - c) / 2) * ((a - c) / 2) + b * b))    # memoised on the canonical radicand
     r = term_of(rs, True)
-    cs += [w[0] == (a + c) / 2 - r, w[1] == (a + c) / 2 + r]
-  e.trace.append(('a', z3.And(*cs)))
+    e.trace.append(('a', z3.And(w[0] == (a + c) / 2 - r, w[1] == (a + c) / 2 + r)))
   W = core.obj_array([Sym(x) for x in w])
   Vm = core.obj_array([Sym(V[i][j]) for i in range(d) for j in range(d)], (d, d))
   return W, Vm
